@@ -107,7 +107,7 @@ type Unit struct {
 	pendingBinds []Val
 	qn           int
 	topParams    map[string]Val
-	onReturn     func(f *Frame, st *State, vals []Val, k int)
+	onReturn     func(f *Frame, st *State, vals []Val, k int, pos token.Pos)
 }
 
 type Frame struct {
@@ -123,6 +123,7 @@ type Frame struct {
 	resNames []string
 	pure     bool // spec/inlined-in-spec context: no obligations
 	edgeGuard map[[2]int]string
+	loopLimit map[int]token.Pos
 }
 
 func (u *Unit) errf(format string, a ...any) {
@@ -133,7 +134,50 @@ func (u *Unit) heapInit(name string, t types.Type) string {
 	n := name + "_init"
 	u.heapTy[name] = t
 	u.em.pre(fmt.Sprintf("(declare-const %s %s)", n, u.em.heapSort(name, t)))
+	if ax := u.heapAxiom(name, n, t, "alloc_init"); ax != "" {
+		u.em.pre("(assert " + ax + ")")
+	}
 	return n
+}
+
+// heapAxiom: every object in a freshly introduced heap map is a well-typed value
+// whose references were allocated before (<= alloc).
+func (u *Unit) heapAxiom(name, term string, t types.Type, alloc string) string {
+	if strings.HasPrefix(name, "M_") || strings.HasPrefix(name, "VM_") {
+		return ""
+	}
+	st := &State{alloc: alloc}
+	if strings.HasPrefix(name, "E_") {
+		sel := fmt.Sprintf("(select (select %s r) i)", term)
+		inv := u.valInv(sel, t, st)
+		if inv == "" || inv == "true" {
+			return ""
+		}
+		return fmt.Sprintf("(forall ((r Int) (i Int)) (! %s :pattern (%s)))", inv, sel)
+	}
+	sel := fmt.Sprintf("(select %s r)", term)
+	inv := u.valInvDeep(sel, t, st)
+	if inv == "" || inv == "true" {
+		return ""
+	}
+	return fmt.Sprintf("(forall ((r Int)) (! %s :pattern (%s)))", inv, sel)
+}
+
+// valInvDeep is valInv plus allocation bounds for references nested in structs.
+func (u *Unit) valInvDeep(term string, ty types.Type, st *State) string {
+	inv := u.valInv(term, ty, st)
+	if stt, ok := ty.Underlying().(*types.Struct); ok {
+		sn := u.em.sortOf(ty)
+		for i := 0; i < stt.NumFields(); i++ {
+			f := stt.Field(i)
+			switch f.Type().Underlying().(type) {
+			case *types.Pointer, *types.Map, *types.Slice, *types.Struct:
+				sub := fmt.Sprintf("(%s %s)", u.em.fieldSel(sn, f.Name(), i), term)
+				inv = and(inv, u.valInvDeep(sub, f.Type(), st))
+			}
+		}
+	}
+	return inv
 }
 
 func (u *Unit) heapGet(st *State, name string, t types.Type) string {
@@ -428,9 +472,15 @@ func (u *Unit) runFunc(fn *ssa.Function, args []Val, st *State, parent *Frame, p
 		hdrList = append(hdrList, h)
 	}
 	sort.Ints(hdrList)
-	loopOrd := map[int]int{}
-	for i, h := range hdrList {
-		loopOrd[h] = i + 1
+	loopOrd, loopNode := u.loopOrdinals(fn, hdrList, isBack)
+	f.loopLimit = map[int]token.Pos{}
+	for h, n := range loopNode {
+		switch l := n.(type) {
+		case *ast.ForStmt:
+			f.loopLimit[h] = l.Body.Pos()
+		case *ast.RangeStmt:
+			f.loopLimit[h] = l.Body.Pos()
+		}
 	}
 	// topological order (reverse postorder ignoring back edges)
 	visited := make([]bool, nb)
@@ -460,6 +510,7 @@ func (u *Unit) runFunc(fn *ssa.Function, args []Val, st *State, parent *Frame, p
 		head    *State
 		variant string
 		ord     int
+		frameHeaps []string
 	}
 	loops := map[int]*loopCtx{}
 
@@ -491,8 +542,20 @@ func (u *Unit) runFunc(fn *ssa.Function, args []Val, st *State, parent *Frame, p
 			} else if !f.pure && !u.abstract {
 				u.errf("%s: loop %d has no invariant", u.ctx.funcKey(fn), ord)
 			}
+			// implicit loop frame: the function's frame condition holds at every iteration
+			if top && con != nil && !con.AssignsAll && !con.NoFrame {
+				lc.frameHeaps = u.havocLoop(f, cur, fn, body, false)
+				for _, hn := range lc.frameHeaps {
+					if g := u.frameGoal(hn, cur, u.entry, con); g != "" {
+						u.oblige(f, cur, "loopframe-entry", fmt.Sprintf("loop%d:%s", ord, hn), g, token.NoPos)
+					}
+				}
+			}
 			// 2. havoc
-			u.havocLoop(f, cur, fn, body)
+			u.havocLoop(f, cur, fn, body, true)
+			for _, hn := range lc.frameHeaps {
+				u.assume(cur, u.frameGoal(hn, cur, u.entry, con))
+			}
 			// 3. assume invariant
 			if ls != nil {
 				for _, inv := range ls.Invariants {
@@ -516,7 +579,7 @@ func (u *Unit) runFunc(fn *ssa.Function, args []Val, st *State, parent *Frame, p
 					vs = append(vs, u.value(f, cur, r))
 				}
 				if top && u.onReturn != nil {
-					u.onReturn(f, cur, vs, len(rets))
+					u.onReturn(f, cur, vs, len(rets), x.Pos())
 				}
 				rets = append(rets, retInfo{st: cur, vals: vs})
 				terminated = true
@@ -559,6 +622,11 @@ func (u *Unit) runFunc(fn *ssa.Function, args []Val, st *State, parent *Frame, p
 					for _, inv := range ls.Invariants {
 						t := u.specLoop(f, bs, inv.Expr, fn, s.Index)
 						u.oblige(f, bs, "inv-preserved", fmt.Sprintf("loop%d:%s", lc.ord, inv.label()), t, token.NoPos)
+					}
+					for _, hn := range lc.frameHeaps {
+						if g := u.frameGoal(hn, bs, u.entry, con); g != "" {
+							u.oblige(f, bs, "loopframe", fmt.Sprintf("loop%d:%s", lc.ord, hn), g, token.NoPos)
+						}
 					}
 					if ls.Decreases != nil {
 						v := u.specLoop(f, bs, ls.Decreases, fn, s.Index)
@@ -766,7 +834,7 @@ func naturalLoop(fn *ssa.Function, h int, isBack map[[2]int]bool) map[int]bool {
 }
 
 // havocLoop replaces everything the loop body may modify by fresh values.
-func (u *Unit) havocLoop(f *Frame, st *State, fn *ssa.Function, body map[int]bool) {
+func (u *Unit) havocLoop(f *Frame, st *State, fn *ssa.Function, body map[int]bool, apply bool) []string {
 	cells := map[*cellKey]bool{}
 	heaps := map[string]types.Type{}
 	globals := map[*ssa.Global]bool{}
@@ -817,6 +885,14 @@ func (u *Unit) havocLoop(f *Frame, st *State, fn *ssa.Function, body map[int]boo
 			}
 		}
 	}
+	if allHeaps {
+		for k, t := range u.heapTy {
+			heaps[k] = t
+		}
+	}
+	if !apply {
+		return sortedKeys(heaps)
+	}
 	var cl []*cellKey
 	for c := range cells {
 		cl = append(cl, c)
@@ -832,11 +908,23 @@ func (u *Unit) havocLoop(f *Frame, st *State, fn *ssa.Function, body map[int]boo
 			heaps[k] = t
 		}
 	}
+	var havocked []string
 	for _, k := range sortedKeys(heaps) {
 		t := heaps[k]
 		u.heapTy[k] = t
+		if t == nil {
+			continue
+		}
 		st.heaps[k] = u.em.fresh(k, u.em.heapSort(k, t))
+		havocked = append(havocked, k)
 	}
+	defer func() {
+		for _, k := range havocked {
+			if ax := u.heapAxiom(k, st.heaps[k], u.heapTy[k], st.alloc); ax != "" {
+				u.em.assert(ax)
+			}
+		}
+	}()
 	for g := range globals {
 		ty := g.Type().(*types.Pointer).Elem()
 		st.globals[g] = u.em.fresh("G_"+g.Name(), u.em.sortOf(ty))
@@ -846,6 +934,7 @@ func (u *Unit) havocLoop(f *Frame, st *State, fn *ssa.Function, body map[int]boo
 		u.assume(st, fmt.Sprintf("(>= %s %s)", n, st.alloc))
 		st.alloc = n
 	}
+	return sortedKeys(heaps)
 }
 
 func (u *Unit) mapHeapName(mt *types.Map) string {
@@ -1718,4 +1807,75 @@ func splitAnd(t string) []string {
 		out = append(out, splitAnd(p)...)
 	}
 	return out
+}
+
+// loopOrdinals numbers the loops of fn in source order of their for/range statements
+// (falls back to header block order when positions cannot be matched).
+func (u *Unit) loopOrdinals(fn *ssa.Function, hdrs []int, isBack map[[2]int]bool) (map[int]int, map[int]ast.Node) {
+	out := map[int]int{}
+	for i, h := range hdrs {
+		out[h] = i + 1
+	}
+	nodes := map[int]ast.Node{}
+	syn := fn.Syntax()
+	if syn == nil {
+		return out, nodes
+	}
+	var loops []ast.Node
+	ast.Inspect(syn, func(n ast.Node) bool {
+		switch n.(type) {
+		case *ast.ForStmt, *ast.RangeStmt:
+			loops = append(loops, n)
+		case *ast.FuncLit:
+			if n != syn {
+				return false
+			}
+		}
+		return true
+	})
+	if len(loops) != len(hdrs) {
+		return out, nodes
+	}
+	assigned := map[int]int{}
+	used := map[int]bool{}
+	for _, h := range hdrs {
+		body := naturalLoop(fn, h, isBack)
+		// collect positions of instructions in the loop
+		best := -1
+		bestSize := token.Pos(1 << 40)
+		for li, l := range loops {
+			// the loop statement must contain at least one instruction position of every
+			// block kind; choose the smallest statement that contains ALL positioned instructions
+			all := true
+			any := false
+			for bi := range body {
+				for _, ins := range fn.Blocks[bi].Instrs {
+					p := ins.Pos()
+					if !p.IsValid() {
+						continue
+					}
+					if _, isDbg := ins.(*ssa.DebugRef); isDbg {
+						continue
+					}
+					any = true
+					if p < l.Pos() || p > l.End() {
+						all = false
+					}
+				}
+			}
+			if all && any {
+				if sz := l.End() - l.Pos(); sz < bestSize {
+					bestSize = sz
+					best = li
+				}
+			}
+		}
+		if best < 0 || used[best] {
+			return out, map[int]ast.Node{}
+		}
+		used[best] = true
+		assigned[h] = best + 1
+		nodes[h] = loops[best]
+	}
+	return assigned, nodes
 }
